@@ -25,11 +25,22 @@ type c01case struct {
 	// AutoKeys: the chains of the forest are built without WithNodeKey (Chain generates the graph keys)
 	AutoKeys bool `json:"autokeys,omitempty"`
 	// Reuse: builder values (Lambda, Parallel, ChainBranch, GraphBranch) are shared with a twin construction of
-	// the whole case (graphgen.BuildOpts.Reuse: 1 twin first, 2 twin before Compile, 3 twin after Compile)
+	// the whole case (graphgen.BuildOpts.Reuse: 1 twin first, 2 twin before Compile, 3 twin after Compile, 4/5 the root is compiled twice and the first / second runnable is run)
 	Reuse int `json:"reuse,omitempty"`
+	// ExplicitMode: any-predecessor graphs are compiled with an explicit WithNodeTriggerMode(AnyPredecessor)
+	ExplicitMode bool `json:"explicitmode,omitempty"`
 	// Malformed: which construction rule of a chain was broken on purpose ("" = none); informative only, the
 	// verdict comes from chainCompiles / chain_compiles on the forest itself
 	Malformed string `json:"malformed,omitempty"`
+}
+
+// coqTerm: the case as it was given to eino (the model applies the runtime limit itself: with_rtmax)
+func (c *c01case) coqTerm(obs *gg.Obs) string {
+	rt := c.RtMax
+	if rt < 0 {
+		rt = 0
+	}
+	return lib.CoqApp("Build_ccase", c.Case.CoqCase(obs), lib.CoqN(c.entryNo()), lib.CoqNat(rt))
 }
 
 func (c *c01case) entryNo() uint64 {
@@ -79,7 +90,10 @@ func (engine) Generate(r *lib.Rng, tier string, i int) any {
 		c.Malformed = malformChain(r, c)
 	}
 	if r.Chance(1, 4) {
-		c.Reuse = r.Range(1, 3)
+		c.Reuse = r.Range(1, 5)
+	}
+	if r.Chance(1, 4) {
+		c.ExplicitMode = true
 	}
 	if streamable(&c.Case) {
 		switch x := r.Intn(8); {
@@ -251,6 +265,16 @@ func (engine) Run(c any) lib.Result {
 	}
 	ro.Build.AutoChainKeys = cc.AutoKeys
 	ro.Build.Reuse = cc.Reuse
+	if cc.ExplicitMode {
+		anyPred := func(idx int) []compose.GraphCompileOption {
+			if g := &cc.Forest[idx]; g.Front == "graph" && g.Mode == "pregel" {
+				return []compose.GraphCompileOption{compose.WithNodeTriggerMode(compose.AnyPredecessor)}
+			}
+			return nil
+		}
+		ro.Build.RootCompileOpts = anyPred(0)
+		ro.Build.SubCompileOpts = func(idx int, p []uint64) []compose.GraphCompileOption { return anyPred(idx) }
+	}
 	delayed := (len(cc.Forest)+int(cc.Input.Size()))%4 == 1
 	if delayed {
 		// unequal node durations (0-150us, fixed per node path): lock-step must not depend on who finishes first
@@ -278,6 +302,9 @@ func (engine) Run(c any) lib.Result {
 	if cc.AutoKeys {
 		res.Tags = append(res.Tags, "chain:generated-node-keys")
 	}
+	if cc.ExplicitMode {
+		res.Tags = append(res.Tags, "compile:explicit-any-predecessor")
+	}
 	if cc.Reuse != 0 {
 		res.Tags = append(res.Tags, fmt.Sprintf("builders-shared-with-twin:%d", cc.Reuse))
 	}
@@ -302,12 +329,12 @@ func (engine) Run(c any) lib.Result {
 			return res
 		}
 		// a malformed chain was rejected: the model must reject it too (chain_compiles = false)
-		res.CoqTerm = lib.CoqApp("Build_ccase", cs.CoqCase(obs), lib.CoqN(cc.entryNo()))
+		res.CoqTerm = cc.coqTerm(obs)
 		res.Nontrivial = true
 		return res
 	}
 	if !accepted && obs.Class != "panic" && obs.Class != "hang" {
-		res.CoqTerm = lib.CoqApp("Build_ccase", cs.CoqCase(obs), lib.CoqN(cc.entryNo()))
+		res.CoqTerm = cc.coqTerm(obs)
 		res.Oracle, res.Sig = "Compile accepted a malformed chain ("+why+"): it ran as a graph the chain does not describe", "c01:compile-accepted"
 		return res
 	}
@@ -315,7 +342,7 @@ func (engine) Run(c any) lib.Result {
 		res.Tags = append(res.Tags, "not-in-model:budget")
 		return res
 	}
-	res.CoqTerm = lib.CoqApp("Build_ccase", cs.CoqCase(obs), lib.CoqN(cc.entryNo()))
+	res.CoqTerm = cc.coqTerm(obs)
 	res.Oracle, res.Sig = oraclePregel(cs, obs, cc.Entry != "")
 	if res.Oracle == "" && obs.Class != "hang" && obs.Class != "panic" && cc.RtMax == 0 && cc.Entry == "" {
 		// overlapping runs of the same compiled graph (see concurrent.go)
@@ -326,6 +353,10 @@ func (engine) Run(c any) lib.Result {
 		case (len(obs.Log)+len(cs.Forest))%8 == 0:
 			res.Oracle, res.Sig = concurrentPhase(cs, 4, 25)
 			res.Tags = append(res.Tags, "concurrent:4x25")
+		case (len(obs.Log)+len(cs.Forest))%8 < 3:
+			// the compiled runnable is invoked 6 times in a row on 4 input variants (nothing of a run may stay behind)
+			res.Oracle, res.Sig = concurrentPhase(cs, 1, 6)
+			res.Tags = append(res.Tags, "rerun:1x6")
 		}
 	}
 	res.Nontrivial = gg.Nontrivial(cs, obs)
